@@ -379,6 +379,26 @@ func c17jobs(tier string) []c17job {
 			_, _ = c17str(c, "CameraModel.String", v, ifds.CameraModel(v).String)
 			_, _ = c17str(c, "canon.CameraModel.String", v, mkcanon.CameraModel(v).String)
 		}
+		// the PowerShot constants are named after the camera: a constant formats as its own
+		// camera's name or, like most of them, as "" - never as another camera's
+		if part == 0 {
+			for _, k := range []struct {
+				m    mkcanon.CameraModel
+				name string
+			}{{mkcanon.PowerShotA200, "Canon PowerShot A200"}, {mkcanon.PowerShotA510, "Canon PowerShot A510"}, {mkcanon.PowerShotA540, "Canon PowerShot A540"},
+				{mkcanon.PowerShotA450, "Canon PowerShot A450"}, {mkcanon.PowerShotA590IS, "Canon PowerShot A590 IS"}, {mkcanon.PowerShotA75, "Canon PowerShot A75"},
+				{mkcanon.PowerShotA80, "Canon PowerShot A80"}, {mkcanon.PowerShotA85, "Canon PowerShot A85"}, {mkcanon.PowerShotG2, "Canon PowerShot G2"},
+				{mkcanon.PowerShotG9, "Canon PowerShot G9"}, {mkcanon.PowerShotS2IS, "Canon PowerShot S2 IS"}, {mkcanon.PowerShotS5IS, "Canon PowerShot S5 IS"},
+				{mkcanon.PowerShotSD1000, "Canon PowerShot SD1000"}, {mkcanon.PowerShotSD600, "Canon PowerShot SD600"}, {mkcanon.PowerShotSD950IS, "Canon PowerShot SD950 IS"},
+				{mkcanon.PowerShotSX30IS, "Canon PowerShot SX30 IS"}, {mkcanon.PowerShotSX50HS, "Canon PowerShot SX50 HS"}, {mkcanon.PowerShotSX60HS, "Canon PowerShot SX60 HS"}} {
+				if got := k.m.String(); got != "" && got != k.name {
+					c.Rec.Violation("name:canon-model", fmt.Sprintf("the constant named after the %s formats as %q", k.name, got), nil)
+				}
+				if m, ok := mkcanon.CameraModelFromString(k.name); ok && m != k.m {
+					c.Rec.Violation("fromstring:canon-model", fmt.Sprintf("CameraModelFromString(%q) = %d, the constant named after that camera is %d", k.name, m, k.m), nil)
+				}
+			}
+		}
 		// documented model names parse back to the value they name
 		if part == 0 {
 			for _, nm := range []string{"Canon EOS R5", "Canon EOS R6", "Canon EOS 6D", "Canon EOS 7D", "Canon EOS 80D"} {
